@@ -7,14 +7,17 @@ CONSTANTS
   MaxBg = 99
   MaxLosses = 99
   MaxLogins = 99
+  SlowScan = {TRUE, FALSE}
   Env = {"exec", "peerin", "userdisc", "midburst"}
   MaxConnFail = 99
   FixAutoJoin = TRUE
   FixDistStopped = TRUE
   FixWatchdogStopped = TRUE
+  FixCancelFirst = TRUE
   FixTimersStopped = TRUE
   FixStaleInit = TRUE
   FixSelfAwait = TRUE
   MarksMode = TRUE
   FixQueueOnce = TRUE
+  FixScanStopped = TRUE
 CHECK_DEADLOCK FALSE
